@@ -74,6 +74,14 @@ def _satisfiable(f):
     return False
 
 
+def pred_table(prog):
+    """what the predicate closures and bool helpers of merge.rs test (e.g. the duplicate test of merge_user_rights)"""
+    from . import diag
+    A = sym.Analyzer(prog, opaque=[r"merge::.*"])
+    fids = sorted(f for f, b in prog.bodies.items() if b.file == "a2lfile/src/merge.rs" and b.kind != "Closure" and "::test" not in f)
+    return diag.module_table(prog, A, fids, re.compile(r"$^"), cursors=False)
+
+
 def r08_listeq(chk, prog, rule="R08-listeq"):
     """the generated PartialEq impls (R08-eq) compare sub-element lists with ItemList's hand-written `==`: that one is equality of the
     whole item sequences -- the standard Vec/slice equality on both `items` fields, or an explicit equal-length test next to an
@@ -141,6 +149,9 @@ def run(chk):
     r08_listeq(chk, mir.prog())
     from . import c13, textrules
     c13.shared(chk, "R08-list", "merge compares and looks up elements of both modules through ItemList")
+    # duplicate / identity tests written as closures (`any(|x| x.user_level_id == y.user_level_id)`): what they compare, and how
+    from . import diag
+    diag.compare(chk, "R08-pred", "mergepred", pred_table(mir.prog()), "predicate closures and bool helpers of merge.rs (what is compared to decide that B's element already exists), compared with the reviewed table", floor=1)
     # "identical elements are shared": IF_DATA payloads are part of the comparison, and they are compared for equality
     from . import c01
     c01.r01_eq_ifdata(chk, rule="R08-eq-ifdata", rule_count="R08-eq-ifdata")
@@ -378,6 +389,44 @@ def run(chk):
                 okd = not _satisfiable(G)
             if not okd:
                 chk.add(Finding("R08-union", "R08-union::overwrite::" + pth, "%s is assigned from the merged-in element also where the destination already has such a list: A's members are replaced (or removed, when the merged-in element has none)" % pth, fb.where(ev[4]) if fb else ""))
+    # any other field of one of A's own elements that receives a value from B: only where A's field is known to be absent
+    # ("every element of A is kept unchanged; GROUPs and FUNCTIONs may only gain members")
+    nover = 0
+    for ev in mf.S.events:
+        if ev[0] != "write":
+            continue
+        r, pth = refs.term_path(ev[1])
+        if not (r == ("param", 1) and pth and "/" in pth and pth not in unions and any(refs.term_path(v)[0] == ("param", 2) for v in ev[2])):
+            continue
+        if mergefacts.lookups_in(ev[2]):
+            continue
+        fb = prog.bodies.get(ev[3])
+        Sl = mf.A.summary(ev[3]) if fb is not None else None
+        blocks = [x[5] for x in (Sl.events if Sl else []) if x[0] == "write" and x[3] == ev[3] and x[4] == ev[4]]
+        if not blocks:
+            continue
+        nover += 1
+        dest = "arg1." + ".".join(seg.split(".")[-1] for seg in pth.split("/"))
+        F = guards.reach_formula(fb, Sl, blocks[0])
+        absent = False
+        d = dest
+        while "." in d and not absent:
+            G = ["and", F, ["e", "discr(%s)" % d, ["Some"], True]] if F is not True else ["e", "discr(%s)" % d, ["Some"], True]
+            atoms = []
+            def walk(f, acc):
+                if isinstance(f, list) and f and f[0] in ("and", "or"):
+                    for x in f[1:]:
+                        walk(x, acc)
+                elif isinstance(f, list) and f and f[0] == "e":
+                    acc.append(f)
+            walk(F, atoms)
+            if any(a[1] == "discr(%s)" % d and a[2] == ["Some"] for a in atoms) and not _satisfiable(G):
+                absent = True
+            d = d.rsplit(".", 1)[0]
+        if not absent:
+            chk.add(Finding("R08-union", "R08-union::overwrite-field::" + pth, "%s of an element of the destination module is assigned from the merged-in module although the destination's value is not known to be absent: an element of A is changed by the merge" % pth, fb.where(ev[4])))
+    # (no such write exists on the reviewed tree besides the list take-overs above: the instances are counted under R08-union)
+    nun += nover
     for parent, ev in sorted(unions.items()):
         nun += 1
         if parent not in fills:
